@@ -12,6 +12,9 @@ VERIF = os.path.dirname(os.path.dirname(os.path.abspath(__file__)))
 os.environ.setdefault("MPLCONFIGDIR", os.path.join(VERIF, ".cache", "mpl"))
 os.makedirs(os.environ["MPLCONFIGDIR"], exist_ok=True)
 sys.path.insert(0, VERIF)
+if os.environ.get("ARMI_REPO"):
+    # evaluate a scratch copy of the repository (seeded-change rehearsal) instead of /repo
+    sys.path.insert(0, os.path.realpath(os.environ["ARMI_REPO"]))
 
 
 def _load(prop):
